@@ -41,7 +41,8 @@ META = {
         "run index live on the same (filtered) runs as the counts. R6 rlencode/rldecode internals: positive-count mask, "
         "marks on interior pointers only, adjacent-column comparison reduced over the other axis, sentinel/final index such "
         "that the counts sum to the compressed extent, representative taken along the compressed axis. R7 merge_matrices: "
-        "np.insert places B's entries in B-line order at tied positions, so the replaced lines must be known ascending. "
+        "np.insert places B's entries in B-line order at tied positions, so the replaced lines must be known ascending (raise-guard) or be "
+        "sorted with B's lines gathered by the same permutation along the line axis of the format. "
         "R8 rlencode and rldecode act along the same axis (round trip). R9 Kronecker numbering: expand_indices_nd numbers "
         "nd*index+component and emits all components of an index together; sparse_kronecker_product is kron(M, eye(nd)) "
         "(same numbering on rows and columns). R10 every return of stack_diag has the shape (A0+B0, A1+B1). Not decided: values of any result; block_diag_index / block_diag_matrix; "
@@ -60,7 +61,7 @@ META = {
     "technique": "format/axis typing of guarded arms + pointer-window dataflow + linear-form identities on extracted "
                  "formulas + small symbolic executors for the run-length pair",
 }
-MIN_INSTANCES = {"R1": 26, "R2": 10, "R3": 6, "R4": 5, "R5": 1, "R6": 9, "R7": 1, "R8": 1, "R9": 6, "R10": 3}
+MIN_INSTANCES = {"R1": 26, "R2": 10, "R3": 6, "R4": 5, "R5": 1, "R6": 9, "R7": 1, "R8": 1, "R9": 6, "R10": 2}
 
 FMT = {"csr": {"line": 0, "idx": 1}, "csc": {"line": 1, "idx": 0}}
 OTHER = {"csr": "csc", "csc": "csr"}
@@ -1406,27 +1407,50 @@ def rule_run_length(ctx: Ctx, mod) -> None:
 def rule_merge_order(ctx: Ctx, mod) -> None:
     q = "merge_matrices"
     f = View(mod, q)
-    if len(f.params) < 3:
+    if len(f.params) < 4:
         raise AnchorError(f"{MO}:{q}: signature changed ({f.params})")
-    lines = f.params[2]
+    Bn, lines = f.params[1], f.params[2]
     ins = [n for n in _nodes(f) if isinstance(n, ast.Call) and call_name(n) == "insert"
            and (len(n.args) >= 2 or kwarg(n, "obj") is not None)]
-    sites = []
+    sites, line_exprs = [], []
     for c in ins:
         pos = f.canon2(c.args[1] if len(c.args) >= 2 else kwarg(c, "obj"), f.stmt_of(c))  # type: ignore[arg-type]
         reps = [r for r in ast.walk(pos) if isinstance(r, ast.Call) and call_name(r) == "repeat" and r.args
                 and isinstance(r.args[0], ast.Subscript) and lines in names_in(r.args[0].slice)]
         if reps:
             sites.append(c)
+            line_exprs.append(reps[0].args[0].slice)  # type: ignore[union-attr]
     if not sites:
         return  # another construction: MIN_INSTANCES makes the check refuse (exit 2), never a finding
-    # evidence that `lines` is known to be ascending
+    first = min(sites, key=lambda c: f.order[id(f.stmt_of(c))])
+    X = line_exprs[sites.index(first)]
+
+    def order_kind(e: ast.expr) -> Optional[str]:
+        """'order' for argsort(lines), 'inverse' for argsort(argsort(lines)); None otherwise"""
+        if isinstance(e, ast.Call) and call_name(e) == "argsort":
+            a = e.args[0] if e.args else (e.func.value if isinstance(e.func, ast.Attribute) else None)
+            if a is None:
+                return None
+            if u(a) == lines:
+                return "order"
+            if order_kind(a) == "order":
+                return "inverse"
+        return None
+    sorted_lines = (isinstance(X, ast.Subscript) and u(X.value) == lines and order_kind(X.slice) == "order") or \
+        (isinstance(X, ast.Call) and call_name(X) == "sort" and (X.args and u(X.args[0]) == lines
+                                                                  or isinstance(X.func, ast.Attribute) and u(X.func.value) == lines))
+    # a raise-guard demanding ascending input
     guard = None
     mention = False
     for n in _nodes(f):
-        if isinstance(n, ast.Call) and call_name(n) in ("sort", "argsort", "lexsort") and any(lines in names_in(a) for a in n.args):
-            mention = True
+        hit = False
         if isinstance(n, ast.Call) and call_name(n) == "diff" and n.args and u(n.args[0]) == lines:
+            hit = True
+        if isinstance(n, ast.Compare) and len(n.ops) == 1 and isinstance(n.left, ast.Subscript) and isinstance(n.comparators[0], ast.Subscript) \
+                and u(n.left.value) == u(n.comparators[0].value) == lines \
+                and {_slice_kind(n.left.slice), _slice_kind(n.comparators[0].slice)} == {"head", "tail"}:
+            hit = True
+        if hit:
             mention = True
             cur = n
             while cur in f.pm and not isinstance(f.pm[cur], ast.stmt):
@@ -1435,26 +1459,87 @@ def rule_merge_order(ctx: Ctx, mod) -> None:
             if isinstance(st, ast.If) and _raises(st.body) and any(isinstance(x, (ast.Lt, ast.LtE, ast.Gt, ast.GtE)) for c_ in ast.walk(st.test)
                                                                     if isinstance(c_, ast.Compare) for x in c_.ops):
                 guard = st
-        if isinstance(n, ast.Compare) and len(n.ops) == 1 and isinstance(n.left, ast.Subscript) and isinstance(n.comparators[0], ast.Subscript) \
-                and u(n.left.value) == u(n.comparators[0].value) == lines \
-                and {_slice_kind(n.left.slice), _slice_kind(n.comparators[0].slice)} == {"head", "tail"}:
+        if isinstance(n, ast.Call) and call_name(n) in ("sort", "argsort", "lexsort", "searchsorted") and any(lines in names_in(a) for a in n.args):
             mention = True
-            cur = n
-            while cur in f.pm and not isinstance(f.pm[cur], ast.stmt):
-                cur = f.pm[cur]
-            st = f.pm.get(cur)
-            if isinstance(st, ast.If) and _raises(st.body):
-                guard = st
-    if guard is None and mention:
-        raise f.und(f"`{lines}` is sorted or tested for order in a form that is not a recognised raise-guard")
-    ok = guard is not None and all(f.dominates(guard, f.stmt_of(c)) for c in sites)
-    ctx.check("R7", ok, mod, q, sites[0],
+    guarded = guard is not None and all(f.dominates(guard, f.stmt_of(c)) for c in sites)
+    if not sorted_lines and not guarded and mention:
+        raise f.und(f"`{lines}` is sorted or tested for order in a form that is not recognised (neither `{lines}[argsort({lines})]`, "
+                    f"np.sort({lines}) nor a raise-guard)")
+    ctx.check("R7", bool(sorted_lines or guarded), mod, q, first,
               f"np.insert puts values with equal positions in the order given; after the old entries are removed every replaced line is "
               f"empty, so two adjacent replaced lines share one insert position and receive B's entries in B-line order. That is the "
-              f"order of A's lines only if `{lines}` is ascending, which is neither checked nor established "
+              f"order of A's lines only if the lines are processed in ascending order, which is neither checked nor established "
               f"(A 4x3 csr, B 2x3, lines=[2,1]: row 1 gets B's row 0 and part of row 1)",
               construct="np.insert at repeated line pointers needs ascending lines",
               facts={"failing_input": "A=csr(arange(1,13).reshape(4,3)); B=csr([[100,0,200],[0,300,0]]); merge_matrices(A,B,np.array([2,1]),'csr') != (A[[2,1]]=B)"})
+    if not sorted_lines:
+        return
+    # the lines were re-ordered: B's lines must be re-ordered with the same permutation, along the line axis of the format
+    fc = FmtCtx(f)
+    at = f.stmt_of(first)
+    bdefs = [d for d in f.defs.get(Bn, []) if d.kind == "plain" and d.value is not None and f.before(d.stmt, at)]
+    arms: list[tuple[Optional[str], ast.expr, ast.stmt]] = []
+    for d in bdefs:
+        v = d.value
+        for _ in range(4):  # a temporary holding the permuted matrix
+            if isinstance(v, ast.Name) and v.id != Bn:
+                dd = f.unique_def(v.id, d.stmt)
+                if dd is not None and dd.kind == "plain" and dd.value is not None:
+                    v, d = dd.value, dd
+                    continue
+            break
+        if isinstance(v, ast.IfExp) and _fmt_atom(v.test) is not None:
+            a = _fmt_atom(v.test)
+            arms.append((a[1] if a[2] else OTHER[a[1]], v.body, d.stmt))      # type: ignore[index]
+            arms.append((OTHER[a[1]] if a[2] else a[1], v.orelse, d.stmt))    # type: ignore[index]
+        else:
+            F = fc.fmt(d.stmt)
+            if F is None:
+                ne = [k for _, k, e_ in fc.facts(d.stmt) if not e_]
+                F = OTHER[ne[0]] if len(ne) == 1 else None  # else-arm of a test on the format (matrix_format is csr or csc)
+            arms.append((F, v, d.stmt))  # type: ignore[arg-type]
+    if not arms:
+        ctx.check("R7", False, mod, q, first,
+                  f"`{lines}` is sorted before the insertion but `{Bn}` keeps its lines in the caller's order: line k of B then goes to the "
+                  f"k-th smallest line of A instead of {lines}[k]", construct="B re-ordered with the lines")
+        return
+    covered = set()
+    for F, v, st in arms:
+        agnostic = isinstance(v, ast.Call) and call_name(v) == "slice_sparse_matrix" and len(v.args) == 2 and u(v.args[0]) == Bn
+        if agnostic:
+            axis, idx = None, v.args[1]
+        elif isinstance(v, ast.Subscript) and u(v.value) == Bn:
+            sl = v.slice
+            if isinstance(sl, ast.Tuple) and len(sl.elts) == 2 and _slice_kind(sl.elts[1]) == "full":
+                axis, idx = 0, sl.elts[0]
+            elif isinstance(sl, ast.Tuple) and len(sl.elts) == 2 and _slice_kind(sl.elts[0]) == "full":
+                axis, idx = 1, sl.elts[1]
+            elif not isinstance(sl, (ast.Tuple, ast.Slice)):
+                axis, idx = 0, sl
+            else:
+                raise f.und(f"re-definition of `{Bn}` is not a permutation of its rows or columns", st)
+        else:
+            raise f.und(f"re-definition of `{Bn}` is not a permutation of its lines", st)
+        kind = order_kind(f.canon2(idx, st))
+        if kind is None:
+            raise f.und(f"`{Bn}` is indexed by something other than argsort({lines}) or its inverse", st)
+        ctx.check("R7", kind == "order", mod, q, st,
+                  f"the lines are taken as {lines}[order]; line k of the sorted list is line order[k] of B, so B must be gathered with the "
+                  f"SAME permutation (B[order]); it is gathered with the {kind} permutation (wrong for any 3-cycle)",
+                  construct=f"B re-ordered with the same permutation{'' if F is None else ' (' + F + ')'}", facts={"permutation": kind})
+        if agnostic:
+            covered |= {"csr", "csc"}
+            continue
+        if F is None:
+            raise f.und(f"`{Bn}` is permuted outside any format arm", st)
+        covered.add(F)
+        ctx.check("R7", axis == FMT[F]["line"], mod, q, st,
+                  f"for {F} the lines of B are its {AXIS_NAME[FMT[F]['line']]}: the permutation must be applied along axis {FMT[F]['line']}; "
+                  f"`{u(v)}` permutes axis {axis} (on square B only the entries move, nothing fails)",
+                  construct=f"B re-ordered along the line axis ({F})", facts={"arm": F, "axis": axis})
+    ctx.check("R7", covered == {"csr", "csc"}, mod, q, at,
+              f"B must be re-ordered for both formats; re-ordered for {sorted(covered)} only", construct="B re-ordered for csr and csc",
+              facts={"covered": sorted(covered)})
 
 
 # =====================================================================================
@@ -1654,15 +1739,18 @@ def rule_stack_diag_shape(ctx: Ctx, mod) -> None:
     shape_sets = [s for s in f.stmts if isinstance(s, ast.Assign) and len(s.targets) == 1 and isinstance(s.targets[0], ast.Attribute)
                   and s.targets[0].attr in ("_shape", "shape") and isinstance(s.value, ast.Tuple) and len(s.value.elts) == 2]
     for r in rets:
-        if isinstance(r.value, ast.Name) and r.value.id in ("A", "B") and f.unique_def(r.value.id, r) is None:
-            other = "B" if r.value.id == "A" else "A"
+        rvv = r.value
+        if isinstance(rvv, ast.Call) and call_name(rvv) == "copy" and not rvv.args and isinstance(rvv.func, ast.Attribute):
+            rvv = rvv.func.value  # a copy of an operand has the operand's shape
+        if isinstance(rvv, ast.Name) and rvv.id in ("A", "B") and f.unique_def(rvv.id, r) is None:
+            other = "B" if rvv.id == "A" else "A"
             # what the enclosing tests establish about the other operand
             conds = []
             cur: ast.AST = r
             while cur is not f.fn and cur in f.pm:
                 par = f.pm[cur]
                 if isinstance(par, ast.If) and any(cur is x for x in par.body):
-                    conds.append(par.test)
+                    conds += list(par.test.values) if isinstance(par.test, ast.BoolOp) and isinstance(par.test.op, ast.And) else [par.test]
                 cur = par
             txt = " and ".join(u(c) for c in conds)
             both = any(
@@ -1673,15 +1761,16 @@ def rule_stack_diag_shape(ctx: Ctx, mod) -> None:
             if not both and any(n_ in txt for n_ in (f"{other}.shape", f"{other}._shape")):
                 raise f.und("early return guarded by a shape test that is not recognised", r)
             ctx.check("R10", both, mod, q, r,
-                      f"[[A, 0], [0, B]] has shape (A0+B0, A1+B1) for every A, B; this path returns {r.value.id} unchanged under "
+                      f"[[A, 0], [0, B]] has shape (A0+B0, A1+B1) for every A, B; this path returns {u(r.value)} under "
                       f"`{txt}`, which says that {other} has no lines but not that its other extent is zero "
                       f"(A 2x2 csr, B 0x3 csr: result 2x2, sps.block_diag gives 2x5)",
-                      construct=f"stack_diag: early return of {r.value.id} keeps the extent of {other}",
+                      construct=f"stack_diag: early return of {rvv.id} keeps the extent of {other}",
                       facts={"guard": txt, "failing_input": "stack_diag(csr(ones((2,2))), csr((0,3))).shape == (2,2) != (2,5)"})
         else:
             c = f.canon2(r.value, r)
             nm = r.value.id if isinstance(r.value, ast.Name) else None
-            ss = [s_ for s_ in shape_sets if nm is not None and u(s_.targets[0].value) == nm]
+            ss = [s_ for s_ in shape_sets if nm is not None and u(s_.targets[0].value) == nm
+                  and (f.dominates(s_, r) or f.pm.get(s_) is f.pm.get(r))]
             if len(ss) != 1:
                 raise f.und("main return is not an object whose shape is set once", r)
             els = ss[0].value.elts  # type: ignore[attr-defined]
@@ -1828,7 +1917,18 @@ MUTANTS = [
     _m("rlencode-final-boundary-from-rows", "i = np.hstack((np.argwhere(i).ravel(), (A.shape[1] - 1)))", "i = np.hstack((np.argwhere(i).ravel(), (A.shape[0] - 1)))", "R6"),
     _m("rlencode-all-components-must-differ", "i = np.any(comp, axis=0)", "i = np.all(comp, axis=0)", "R6"),
     _m("rlencode-ends-shifted", "i = np.hstack((np.argwhere(i).ravel(), (A.shape[1] - 1)))", "i = np.hstack((np.argwhere(i).ravel() + 1, (A.shape[1] - 1)))", "R6"),
+    # ---- R7 merge_matrices (reverted fix 377282372 and its wrong variants)
+    _m("revert-fix-merge-lines-not-sorted", '    order = np.argsort(lines_to_replace, kind="stable")\n    lines_to_replace = lines_to_replace[order]\n'
+       '    B = B[order] if matrix_format == "csr" else B[:, order]\n', "", "R7", control=True),
+    _m("merge-lines-sorted-B-not-permuted", '    B = B[order] if matrix_format == "csr" else B[:, order]\n', "", "R7"),
+    _m("merge-B-permuted-on-rows-for-csc", '    B = B[order] if matrix_format == "csr" else B[:, order]\n', '    B = B[order] if matrix_format == "csr" else B[order, :]\n', "R7"),
+    _m("merge-B-permuted-on-wrong-axes", '    B = B[order] if matrix_format == "csr" else B[:, order]\n', '    B = B[:, order] if matrix_format == "csr" else B[order]\n', "R7"),
+    _m("merge-B-permuted-with-inverse", '    B = B[order] if matrix_format == "csr" else B[:, order]\n',
+       '    inverse = np.argsort(order)\n    B = B[inverse] if matrix_format == "csr" else B[:, inverse]\n', "R7"),
+    _m("merge-B-permuted-for-csr-only", '    B = B[order] if matrix_format == "csr" else B[:, order]\n', '    if matrix_format == "csr":\n        B = B[order]\n', "R7"),
     # ---- R10
+    _m("revert-fix-stack-diag-shortcut-returns-A", "        raise ValueError(\"A and B must be of same matrix type\")\n    C = A.copy()\n",
+       "        raise ValueError(\"A and B must be of same matrix type\")\n    if B.indptr.size == 1:\n        return A\n    C = A.copy()\n", "R10", control=True),
     _m("seed-stack-mat-shortcut-on-no-entries", "    if B.indptr.size == 1:\n        return\n", "    if B.nnz == 0:\n        return\n", "R10"),
     _m("stack-diag-shape-only-rows-grow", "C._shape = (A._shape[0] + B._shape[0], A._shape[1] + B._shape[1])",
        "C._shape = (A._shape[0] + B._shape[0], A._shape[1] + B._shape[0])", "R10"),
